@@ -36,6 +36,9 @@ def check(ctx):
     pc.spectrum(ctx, N)
     dispatch(ctx)
     shapes(ctx)
+    from .C04 import yhat
+
+    yhat(ctx, N)
 
 
 def dispatch(ctx):
